@@ -7,7 +7,7 @@ import numpy as np
 
 ID = "C04"
 PROPS_FILE = "theories/Props/C04.v"
-EXTRACT = ("theories/Extract/XC04.v", "c04", ["entry_recon", "entry_check", "entry_iter", "entry_prep_check"])
+EXTRACT = ("theories/Extract/XC04.v", "c04", ["entry_recon", "entry_check", "entry_iter", "entry_prep_check", "entry_ord_check"])
 PYX = {"_cpmorphology2.pyx": ["grey_reconstruction_loop"]}
 CASE_TIMEOUT = 30
 RULE = ("cases = (seed, mask, footprint, offset) with pixel values given as integer CODES plus a strictly increasing "
@@ -33,8 +33,8 @@ TRUSTED = [
     "the untrusted level certificate is computed by a breadth-first pass in the harness; only its check is verified",
 ]
 ASSUMPTIONS = [
-    "2-D images (1-D and 3-D inputs run through the same flat loop but are not modelled); no NaN; boolean footprints "
-    "(an integer-typed footprint is silently misread by footprint_mgrid[:, footprint]: findings/C04.json)",
+    "2-D images (1-D and 3-D inputs run through the same flat loop but are not modelled); no NaN; footprints of any dtype or nested lists (non-zero = member, "
+    "as np.array(footprint, dtype=bool) since fix F18)",
     "2 * padded size < 2^31 (int32 list links) and fewer than 2^32 distinct values (uint32 ranks)",
     "footprint dimensions >= 2 and every footprint offset within the padding shape//2 (always true for odd "
     "dimensions >= 3 with offset=None); a dimension of 1 gives padding 0 and slice(0, -0)",
@@ -117,6 +117,33 @@ def _decoder(enc, case):
 
 def _fp_grid(case):
     return case["fp"] if case["fp"] is not None else [[1, 1, 1], [1, 1, 1], [1, 1, 1]]
+
+
+def _fp_values(case):
+    """the footprint as the caller passes it: 0 where case["fp"] is 0, the k-th truthy value of fpenc elsewhere"""
+    fe = case.get("fpenc") or {"dt": "bool", "vals": [1]}
+    k = 0
+    g = []
+    for row in case["fp"]:
+        r = []
+        for x in row:
+            if x:
+                r.append(fe["vals"][k % len(fe["vals"])]); k += 1
+            else:
+                r.append(0)
+        g.append(r)
+    return g, fe["dt"]
+
+
+def _fp_wire(case):
+    """what the model receives: the integer values themselves for integer footprints (the model's wrapper line
+    footprint = np.array(footprint, dtype=bool) is as_boolss: non-zero = True), 0/1 otherwise"""
+    if case["fp"] is None:
+        return _fp_grid(case)
+    g, dt = _fp_values(case)
+    if all(isinstance(x, int) and not isinstance(x, bool) for row in g for x in row):
+        return g
+    return case["fp"]
 
 
 def _off_arg(case):
@@ -336,7 +363,14 @@ def _random_case(rng, big, count=lambda k: None):
     sk, s = _seed_codes(rng, m)
     fk, fp, off = _footprint(rng)
     tk, enc, lay = _enc(rng, s, m, count)
-    case = {"seed": s.tolist(), "mask": m.tolist(), "fp": fp, "offset": off, "enc": enc, "lay": lay, "bad": None,
+    fpenc = None
+    if fp is not None and rng.rand() < 0.45:
+        dt = str(rng.choice(["uint8", "int8", "int32", "int64", "uint64", "float64", "float32", "list"]))
+        vals = {"uint8": [1, 2, 255, 128], "int8": [1, -1, 127, -128], "int32": [1, 7, -3], "int64": [1, 2 ** 40, -1],
+                "uint64": [1, 2 ** 63], "float64": [1.0, 0.5, -2.0, float("inf"), 1e-300], "float32": [1.0, 0.25, -1.0],
+                "list": [1, 3, True]}[dt]
+        fpenc = {"dt": dt, "vals": vals if rng.rand() < 0.6 else vals[:1]}
+    case = {"seed": s.tolist(), "mask": m.tolist(), "fp": fp, "fpenc": fpenc, "offset": off, "enc": enc, "lay": lay, "bad": None,
             "cls": "%s/%s/%s/%s" % (mk, sk, fk, tk)}
     u = rng.rand()
     if u < 0.015:
@@ -387,6 +421,7 @@ def generate(ctx):
         ctx.count("dtype mask " + c["enc"]["md"])
         ctx.count("layout " + c["lay"]["seed"])
         ctx.count("offset " + ("None" if not c.get("offset") else c["offset"]["as"]))
+        ctx.count("footprint dtype " + ("None" if c["fp"] is None else (c.get("fpenc") or {"dt": "bool"})["dt"]))
         if c.get("bad"):
             ctx.count("malformed " + c["bad"])
     return cases
@@ -496,12 +531,16 @@ def _impl(case):
     enc, lay = case["enc"], case["lay"]
     img = _encode(enc, case["seed"], enc["sd"], lay["seed"], enc.get("negzero"))
     msk = _encode(enc, case["mask"], enc["md"], lay["mask"], enc.get("negzero"))
-    fp = None if case["fp"] is None else _layout(np.array(case["fp"], bool), lay["fp"])
+    if case["fp"] is None:
+        fp = None
+    else:
+        g, dt = _fp_values(case)
+        fp = [list(r) for r in g] if dt == "list" else _layout(np.array(g, dtype=dt), lay["fp"])
     kw = {}
     if case.get("offset"):
         o = case["offset"]
         kw["offset"] = np.array(o["o"]) if o["as"] == "array" else list(o["o"]) if o["as"] == "list" else tuple(o["o"])
-    img0, msk0, fp0 = img.copy(), msk.copy(), None if fp is None else fp.copy()
+    img0, msk0, fp0 = img.copy(), msk.copy(), None if fp is None else ([list(r) for r in fp] if isinstance(fp, list) else fp.copy())
     r = np.asarray(M.grey_reconstruction(img, msk, fp, **kw))
     dec = _decoder(enc, case)
     out = {"shape": list(r.shape), "dtype": str(r.dtype)}
@@ -511,7 +550,7 @@ def _impl(case):
         out["not_a_copy"] = repr(e)
         return out
     out["inputs_mutated"] = bool(not np.array_equal(img, img0) or not np.array_equal(msk, msk0)
-                                 or (fp is not None and not np.array_equal(fp, fp0)))
+                                 or (fp is not None and not np.array_equal(np.asarray(fp), np.asarray(fp0))))
     try:
         r2 = np.asarray(M.grey_reconstruction(r, msk, fp, **kw))
         out["again_same"] = _same(r2, r)
@@ -531,16 +570,27 @@ def _bad(o):
     return (not isinstance(o, dict)) or "exc" in o or "crash" in o or "R" not in o
 
 
+def _padded_cells(c):
+    g = _fp_grid(c)
+    return (len(c["seed"]) + 2 * (len(g) // 2)) * (len(c["seed"][0]) + 2 * (len(g[0]) // 2))
+
+
 def model(ctx, cases, outs):
-    args = [[c["seed"], c["mask"], _fp_grid(c), _off_arg(c)] for c in cases]
+    args = [[c["seed"], c["mask"], _fp_wire(c), _off_arg(c)] for c in cases]
     res = ctx.run_model("entry_recon", args)
     # premise of C04_model_safe_partial, discharged per instance: the set-up state satisfies Inv
     inv = ctx.run_model("entry_prep_check", args)
-    return [{"m": r, "inv": i} for r, i in zip(res, inv)]
+    # premise of C04_loop_total_partial (order invariant Ord on the set-up state), quadratic: small cases only
+    small = [k for k, c in enumerate(cases) if not c.get("bad") and _padded_cells(c) <= 200]
+    ordr = dict(zip(small, ctx.run_model("entry_ord_check", [args[k] for k in small])))
+    ctx.count("ord_check evaluated", len(small))
+    return [{"m": r, "inv": i, "ord": ordr.get(k)} for k, (r, i) in enumerate(zip(res, inv))]
 
 
 def compare(case, out, m):
-    inv, m = m["inv"], m["m"]
+    ordv, inv, m = m.get("ord"), m["inv"], m["m"]
+    if ordv is not None and ordv != 1:
+        return "Spec.ReconInv.ord_check is false on the set-up state of a valid input (premise of C04_loop_total_partial)"
     if isinstance(m, dict) or isinstance(inv, dict):
         return "model error: %s %s" % (m, inv)
     if not case.get("bad") and inv != 1:
@@ -642,7 +692,7 @@ def kernel_crosscheck(ctx, cases, outs):
            and len(c["seed"]) * len(c["seed"][0]) <= 16 and len(_fp_grid(c)) * len(_fp_grid(c)[0]) <= 15
            and nontrivial(c, outs[k])][:40]
     idx += [k for k, c in enumerate(cases) if c.get("bad")][:4]
-    args = [[cases[k]["seed"], cases[k]["mask"], _fp_grid(cases[k]), _off_arg(cases[k])] for k in idx]
+    args = [[cases[k]["seed"], cases[k]["mask"], _fp_wire(cases[k]), _off_arg(cases[k])] for k in idx]
     exp = [[3] if cases[k].get("bad") else [outs[k]["R"], 0] for k in idx]
     r = ctx.coq_eval_eq("Model.Recon", "entry_recon", args, exp, tag="recon")
     bad = [k for k, b in zip(idx, r) if b is not True]
@@ -731,6 +781,9 @@ def shrink_candidates(case):
     pe = _plain_enc(s, m)
     if case["enc"] != pe:
         c = dict(case); c["enc"] = pe
+        yield c
+    if case.get("fpenc"):
+        c = dict(case); c["fpenc"] = None
         yield c
     if case.get("offset") and case["offset"]["as"] != "array":
         c = dict(case); c["offset"] = {"o": case["offset"]["o"], "as": "array"}
